@@ -237,4 +237,23 @@ def respond(line, cfg_idx=None):
             except Exception as e:
                 out.append("E:" + err_kind(e).replace(" ", "_"))
         return "OK " + " ".join(out)
+    ext = _extensions()
+    if op in ext:
+        return ext[op](parts)
     return "BADREQ"
+
+
+_EXT = None
+
+
+def _extensions():
+    """worker commands contributed by tools/harness/canon_ext_*.py: each module defines COMMANDS = {op: fn(parts) -> answer line}"""
+    global _EXT
+    if _EXT is None:
+        import glob, importlib, os
+        _EXT = {}
+        here = os.path.dirname(os.path.abspath(__file__))
+        for path in sorted(glob.glob(os.path.join(here, "canon_ext_*.py"))):
+            mod = importlib.import_module(os.path.basename(path)[:-3])
+            _EXT.update(mod.COMMANDS)
+    return _EXT
